@@ -1041,3 +1041,121 @@ class RRSet(Stream):
 
 
 STREAMS.update({"rrset": RRSet()})
+
+
+# ------------------------------------------------------------------------------- roundtrip (C02)
+class RoundTrip(Stream):
+    """well-formed messages decode to exactly what they encode"""
+    name = "roundtrip"
+    rule = ("random message ASTs (any id/flags/counts, 0-3 questions, records of the 17 typed formats, OPT, unknown types/classes in "
+            "any section) rendered by the none/greedy/random compression engines; read sequentially (header, questions, then for each "
+            "record an owned-name header with Name or InlineName + typed data / OPT / raw bytes) and through the iterator; every "
+            "field compared with the AST, nothing extra reported, records_count decreasing by one. Non-trivial: >=1 record. "
+            "Distinct by message.")
+
+    def generate(self, rng, tier, pid):
+        n = 2000 if tier == "quick" else 60000
+        out = []
+        self.asts = {}
+        for i in range(n):
+            ast = GM.rand_ast(rng)
+            msg, L = GM.render(rng, ast)
+            calls = ["header", "qcount", "rcount"]
+            for _ in ast["qd"]:
+                calls.append(rng.choice(["q", "q", "qref"]))
+            calls.append("q")          # over-read: ReaderDone... only when no questions remain
+            # the over-read latches the error state, so use a second reader for the records
+            rec_calls = ["header", "skipq"]
+            for m in L.marks:
+                rec_calls.append(rng.choice(["hdrH", "hdrI"]))
+                if m["type"] in GM.TYPED:
+                    rec_calls.append("?data:%d:L" % m["type"])
+                elif m["type"] == 41:
+                    rec_calls.append("?opt:L")
+                else:
+                    rec_calls.append("?bytes:L")
+                rec_calls.append("rcount")
+            rec_calls += ["marker", "rcount"]
+            hexm = GM.hx(msg)
+            cid = "t%d" % i
+            self.asts[cid] = (ast, L)
+            out.append("%s script 2 %s %s %s" % (cid, hexm, hexm, ",".join(["0." + c for c in calls] + ["1." + c for c in rec_calls])))
+            out.append("%si iter %s" % (cid, hexm))
+        return out
+
+    def nontrivial(self, line, impl):
+        return "ok:HN(" in impl or "R(" in impl
+
+    def classify(self, line, impl):
+        return line.split(" ")[1]
+
+    @staticmethod
+    def hdr(ast):
+        """RFC 1035 4.1.1 header fields, independent of the code"""
+        f = ast["flags"]
+        return "H(%d,%d,%d,%d,%d,%d|%d,%d,%d,%d,%d,%d,%d)" % (
+            ast["id"], f, len(ast["qd"]), len(ast["secs"][0]), len(ast["secs"][1]), len(ast["secs"][2]),
+            (f >> 15) & 1, (f >> 11) & 15, (f >> 10) & 1, (f >> 9) & 1, (f >> 8) & 1, (f >> 7) & 1, f & 15)
+
+    def oracle(self, line, impl, spec, pid):
+        if impl.startswith(ABNORMAL) or "PANIC" in impl:
+            return "implementation " + impl[:60]
+        cid = line.split(" ", 1)[0]
+        nm = lambda ls: (b"".join(l + b"." for l in ls) or b".").hex()
+        if cid.endswith("i"):
+            ast, L = self.asts[cid[:-1]]
+            if not impl.startswith("new=ok:" + self.hdr(ast)):
+                return "iterator header differs from the encoded one: " + impl[:80]
+            qs = "QS=[" + "".join("Q(%s,%d,%d)," % (nm(n), t, c) for (n, t, c) in ast["qd"]) + "]end"
+            if qs not in impl:
+                return "iterator questions differ: want %s got %s" % (qs[:150], impl[:200])
+            want = []
+            stop = "end"
+            for m in L.marks:
+                r = m["rec"]
+                if r["class"] not in GM.KNOWN_CLASSES or r["type"] not in GM.KNOWN_TYPES:
+                    continue
+                if r["type"] not in GM.TYPED:
+                    stop = "err:UnexpectedType(%d)" % r["type"]
+                    break
+                want.append("R(%d,%s,%d,%d,%d,%s)," % (m["section"], nm(r["owner"]), r["class"], r["type"], r["ttl"], GM.fmt_rdata(r["rdata"])))
+            ws = "RS=[" + "".join(want) + "]" + stop
+            if not impl.endswith(ws):
+                return "iterator records differ: want %s got %s" % (ws[:200], impl[impl.find("RS="):][:200])
+            return None
+        ast, L = self.asts[cid]
+        n, msgs, calls = split_calls(line)
+        res = impl.split(";")
+        if len(res) < len(calls):
+            return "run ended early: " + res[-1][:60]
+        k = 0
+        exp = ["ok:" + self.hdr(ast), "ok:%d" % len(ast["qd"]), "ok:%d" % len(L.marks)]
+        for (nme, t, c) in ast["qd"]:
+            exp.append(("Q", nme, t, c))
+        exp.append("err:ReaderDone")
+        exp += ["ok:" + self.hdr(ast), "ok"]
+        left = len(L.marks)
+        for m in L.marks:
+            r = m["rec"]
+            exp.append("ok:HN(%s,M(%d,%d,%d,%d,%d,%d,%d))" % (nm(r["owner"]), m["start"], m["type_off"], r["type"], r["class"], r["ttl"], m["rdlen"], m["section"]))
+            if r["type"] in GM.TYPED:
+                exp.append("ok:" + GM.fmt_rdata(r["rdata"]))
+            elif r["type"] == 41:
+                ttl = r["ttl"]
+                exp.append("ok:O(%d,%d,%d,%d)" % (r["class"], (ttl >> 24) & 0xFF, (ttl >> 16) & 0xFF, 1 if ttl & 0x8000 else 0))
+            else:
+                exp.append("ok:B(%d,%s)" % (m["rdata_pos"], GM.hx(r["rdata"][1])))
+            left -= 1
+            exp.append("ok:%d" % left)
+        exp += ["err:ReaderDone", "ok:0"]
+        for i, (e, got) in enumerate(zip(exp, res)):
+            if isinstance(e, tuple):
+                _, nme, t, c = e
+                if not (got == "ok:Q(%s,%d,%d)" % (nm(nme), t, c) or re.match(r"ok:QR\(#\d+,%d,%d\)$" % (t, c), got)):
+                    return "question %s differs: %s" % (nm(nme)[:40], got[:80])
+            elif e != got:
+                return "call %d (%s): decoded %s, encoded %s" % (i, calls[i], got[:160], e[:160])
+        return None
+
+
+STREAMS.update({"roundtrip": RoundTrip()})
